@@ -1,6 +1,7 @@
 package scen
 
 import (
+	cd "github.com/go-kid/ioc/component_definition"
 	"github.com/go-kid/ioc/container/processors"
 )
 
@@ -89,6 +90,36 @@ type procBase struct {
 	Part
 }
 
+// the instantiation-aware and early-reference callbacks are sequenced by the same contract
+func (p *procBase) PostProcessBeforeInstantiation(m *cd.Meta, name string) (any, error) {
+	if NodeOf(m.Raw) != nil {
+		p.RT.Event("binst:" + p.Nm + ":" + name)
+	}
+	return nil, nil
+}
+
+func (p *procBase) PostProcessAfterInstantiation(c any, name string) (bool, error) {
+	if NodeOf(c) != nil {
+		p.RT.Event("ainst:" + p.Nm + ":" + name)
+		return true, nil
+	}
+	return false, nil
+}
+
+func (p *procBase) PostProcessProperties(props []*cd.Property, c any, name string) ([]*cd.Property, error) {
+	if NodeOf(c) != nil {
+		p.RT.Event("props:" + p.Nm + ":" + name)
+	}
+	return nil, nil
+}
+
+func (p *procBase) GetEarlyBeanReference(c any, name string) (any, error) {
+	if NodeOf(c) != nil {
+		p.RT.Event("early:" + p.Nm + ":" + name)
+	}
+	return c, nil
+}
+
 func (p *procBase) PostProcessBeforeInitialization(c any, name string) (any, error) {
 	if n := NodeOf(c); n != nil {
 		p.RT.Event("before:" + p.Nm + ":" + name)
@@ -125,3 +156,27 @@ type ElemO struct{ Part }
 func (e *ElemO) Order() int { return e.O }
 
 type ElemN struct{ Part }
+
+// Zero-size components: values of field-less struct types all live at one address
+// (runtime.zerobase), yet they are distinct components. Being stateless they log to ZLog.
+var ZLog []string
+
+type IZ interface{ MZ() string }
+
+type Z1 struct{}
+
+func (*Z1) MZ() string   { return "Z1" }
+func (*Z1) Run() error   { ZLog = append(ZLog, "run:Z1"); return nil }
+func (*Z1) Close() error { ZLog = append(ZLog, "close:Z1"); return nil }
+
+type Z2 struct{}
+
+func (*Z2) MZ() string   { return "Z2" }
+func (*Z2) Run() error   { ZLog = append(ZLog, "run:Z2"); return nil }
+func (*Z2) Close() error { ZLog = append(ZLog, "close:Z2"); return nil }
+
+type Z3 struct{}
+
+func (*Z3) MZ() string   { return "Z3" }
+func (*Z3) Run() error   { ZLog = append(ZLog, "run:Z3"); return nil }
+func (*Z3) Close() error { ZLog = append(ZLog, "close:Z3"); return nil }
